@@ -15,10 +15,11 @@ checks = []
 na = []
 NA_REASONS = json.load(open(os.path.join(HERE, "tools", "not_applicable.json")))
 hook_commits = json.load(open(os.path.join(HERE, "tools", "hook_commits.json")))
+CLAIMED = set(json.load(open(os.path.join(HERE, "tools", "claimed.json"))))  # checks reviewed and accepted
 for p in props:
     pid = p["id"]
     path = os.path.join(HERE, "vp", "props", f"c{pid[1:]}.py")
-    if pid in NA_REASONS or not os.path.exists(path):
+    if pid in NA_REASONS or pid not in CLAIMED or not os.path.exists(path):
         na.append({"property_id": pid, "reason": NA_REASONS.get(pid, "check not built yet in this session; not claimed")})
         continue
     mod = importlib.import_module(f"vp.props.c{pid[1:]}")
